@@ -868,7 +868,10 @@ func (ch *Channel) Close() {
 		// Stop the idle connections timer.
 		ch.mutable.idleSweep.Stop()
 
-		ch.mutable.state = ChannelStartClose
+		// Close may be called more than once, the state must only move forward.
+		if ch.mutable.state < ChannelStartClose {
+			ch.mutable.state = ChannelStartClose
+		}
 		if len(ch.mutable.conns) == 0 {
 			ch.mutable.state = ChannelClosed
 			channelClosed = true
